@@ -2,6 +2,7 @@ import PhpVerif.Model.Pool
 import PhpVerif.Model.Version
 import PhpVerif.Gen.VersionFacts
 import PhpVerif.Model.NewLines
+import PhpVerif.Model.Glue
 /-
 Line-protocol driver: runs the executable model definitions on the operations the Go harness
 also runs on the real code.  One request per line, one answer per line.  Core only (no Mathlib)
@@ -35,6 +36,33 @@ def parseNats (s : String) : List Nat :=
 def natsStr (l : List Nat) : String :=
   if l.isEmpty then "-" else ",".intercalate (l.map toString)
 
+def faultStr : Glue.Fault → String
+  | .index => "fault:index"
+  | .slice => "fault:slice"
+
+def rBool (r : Glue.R Bool) : String :=
+  match r with
+  | .ok b => toString b
+  | .error f => faultStr f
+
+def parseInt (s : String) : Option Int :=
+  if s.startsWith "-" then (s.drop 1).toString.toNat?.map (fun n => -(n : Int)) else s.toNat?.map (fun n => (n : Int))
+
+def intsStr (l : List Int) : String :=
+  if l.isEmpty then "-" else ",".intercalate (l.map toString)
+
+/-- call-stack ops: `c<state>:<fnext>` and `r<n>` separated by `;` -/
+def parseStackOps (s : String) : List Glue.StackOp :=
+  (s.splitOn ";").filterMap (fun w =>
+    if w.startsWith "c" then
+      match (w.drop 1).toString.splitOn ":" with
+      | [a, b] => match parseInt a, parseInt b with
+        | some a, some b => some (Glue.StackOp.call a b)
+        | _, _ => none
+      | _ => none
+    else if w.startsWith "r" then (w.drop 1).toString.toNat?.map Glue.StackOp.ret
+    else none)
+
 def handle (ws : List String) : String :=
   match ws with
   | ["pool", bs, n] =>
@@ -66,6 +94,46 @@ def handle (ws : List String) : String :=
     match a.toNat?, b.toNat? with
     | some a, some b => toString ((Version.mk a b).greaterOrEqual ⟨7, 3⟩)
     | _, _ => "bad-op"
+  | ["notStringVar", h, p] =>
+    match parseInt p with
+    | some p => rBool (Glue.isNotStringVar (unhex h) p)
+    | none => "bad-op"
+  | ["notStringEnd", h, p, c] =>
+    match parseInt p, c.toNat? with
+    | some p, some c => rBool (Glue.isNotStringEnd (unhex h) p (UInt8.ofNat c))
+    | _, _ => "bad-op"
+  | ["notPhpClose", h, p] =>
+    match parseInt p with
+    | some p => rBool (Glue.isNotPhpCloseToken (unhex h) p)
+    | none => "bad-op"
+  | ["notNewLine", h, p] =>
+    match parseInt p with
+    | some p => rBool (Glue.isNotNewLine (unhex h) p)
+    | none => "bad-op"
+  | ["hdBefore", h, p, l] =>
+    match parseInt p with
+    | some p => rBool (Glue.isHeredocEndBefore73 (unhex h) p (unhex l))
+    | none => "bad-op"
+  | ["hdSince", h, p, l] =>
+    match parseInt p with
+    | some p =>
+      match Glue.isHeredocEndSince73 (unhex h) p (unhex l) with
+      | .ok (b, some q) => s!"{b} {q}"
+      | .ok (b, none) => s!"{b}"
+      | .error f => faultStr f
+    | none => "bad-op"
+  | ["varStart", c] =>
+    match c.toNat? with
+    | some c => toString (Glue.isValidVarNameStart (UInt8.ofNat c))
+    | none => "bad-op"
+  | ["varName", c] =>
+    match c.toNat? with
+    | some c => toString (Glue.isValidVarName (UInt8.ofNat c))
+    | none => "bad-op"
+  | ["callstack", ops] =>
+    match Glue.runOps (parseStackOps ops) { stack := [], top := 0, cs := 100, p := 0 } with
+    | .ok s => s!"{s.top} {s.cs} {s.p} {intsStr s.stack}"
+    | .error f => faultStr f
   | ["nlappend", ds, p] =>
     match p.toNat? with
     | some p => natsStr (NL.append (parseNats ds) p)
